@@ -12,10 +12,7 @@ Proof.
   apply eqb_prop in Hf. unfold ok_commit, is_write in *.
   destruct (db_of older) as [comm pend].
   destruct (e_call e) as [| |q|q| | |]; try destruct q; cbn in *; try reflexivity.
-  - destruct (e_ok e); reflexivity.
-  - rewrite <- Hf, Hb. destruct (e_ok e); reflexivity.
-  - rewrite Hc. reflexivity.
-  - destruct (e_ok e); reflexivity.
+  all: try (rewrite <- Hf, Hb); try (rewrite Hc); destruct (e_ok e); reflexivity.
 Qed.
 
 Lemma comm_at_commit : forall e older, ok_commit e = true ->
